@@ -110,14 +110,13 @@ def hash_prepare_optimize(optimize):
 
 
 def hash_contraction(inputs, output, size_dict, optimize, **kwargs):
-    """Compute a hash key for the specified contraction."""
+    """Compute a hashable key for the specified contraction. The key is the
+    tuple of everything that defines the contraction (not its ``hash``), so
+    that two different contractions can never share a cache entry.
+    """
     optimize = hash_prepare_optimize(optimize)
     kwargs = frozenset(kwargs.items())
-    return (
-        hash((inputs, output, tuple(size_dict.items()), optimize, kwargs)),
-        # add this as a basic way to decrease collisions
-        len(inputs),
-    )
+    return (inputs, output, tuple(size_dict.items()), optimize, kwargs)
 
 
 def normalize_input(
